@@ -627,7 +627,7 @@ func c20Seq(c *rig.Ctx) {
 
 type c20Rec struct {
 	Client    int
-	Op        c20Op  // for owners and has-observers
+	Op        c20Op    // for owners and has-observers
 	Snap      *c20Snap // for snapshot readers (local copy or peer reply)
 	Src       string
 	Has       bool
@@ -660,7 +660,7 @@ var c20Model = porcupine.Model{
 		}
 		return false, st
 	},
-	Equal: func(a, b any) bool { return a.(c20Val) == b.(c20Val) },
+	Equal:             func(a, b any) bool { return a.(c20Val) == b.(c20Val) },
 	DescribeOperation: func(in, out any) string { return fmt.Sprintf("%v -> %v", in, out) },
 }
 
